@@ -66,9 +66,15 @@ class Models18(CommonModels):
             ep = path.heap.get(('f', f.bound.oid, '_proxy_ep'))
             port = path.heap.get(('f', ep.oid, 'port')) if isinstance(ep, VInst) else None
             self.glog_add(path, 'tried', port)
+            # what this attempt asks the proxy for, and whether its local address is already being forwarded
+            mine = [d for (o_, d) in self.glog(path, 'addr_deferreds') if o_ == f.bound.oid]
+            fwd = [a for (d, a) in self.glog(path, 'addr_chained') if any(d is m for m in mine)]
+            self.glog_add(path, 'attempts', (path.heap.get(('f', f.bound.oid, '_host')), path.heap.get(('f', f.bound.oid, '_port')), tuple(fwd)))
             return [(path, VOpaque('Deferred', ex.fresh_int(path, 'connd')))]
         if f.qualname == 'TorSocksEndpoint._get_address':
-            return [(path, VOpaque('Deferred', ex.fresh_int(path, 'addrd')))]
+            d = VOpaque('Deferred', ex.fresh_int(path, 'addrd'))
+            self.glog_add(path, 'addr_deferreds', (f.bound.oid, d))
+            return [(path, d)]
         return CommonModels.contract_for(self, ex, path, f, args, kw)
 
     def opaque_attr(self, ex, path, obj, name):
@@ -77,6 +83,8 @@ class Models18(CommonModels):
 
     def method(self, ex, path, recv, name, args, kw):
         if isinstance(recv, VOpaque) and recv.kind == 'Deferred' and name in ('addCallback', 'addErrback', 'addBoth'):
+            if name in ('addCallback', 'addBoth') and args:
+                self.glog_add(path, 'addr_chained', (recv, args[0]))
             return [(path, recv)]
         return CommonModels.method(self, ex, path, recv, name, args, kw)
 
@@ -193,6 +201,19 @@ def unit_connect():
                        clause='tries the well-known local ports in order')
             ctx.oblige('post.moves_on_only_after_connect_error', p, B(all(a == 'connect_error' for a in awaited[:-1])),
                        clause='moves on only after a connection error')
+            # every attempt asks the proxy for the caller's target (not for the proxy's own port), and the local address of the
+            # attempt is forwarded to whoever waits for it *before* the attempt starts (the via-circuit matcher needs it by
+            # the time Tor announces the stream)
+            att = ctx.models.glog(p, 'attempts')
+            wa = p.heap[('f', o, '_when_address')]
+            goals = [B(len(att) == len(tried))]
+            for (h_, po_, fwd) in att:
+                okf = any(isinstance(a_, VFunc) and a_.qualname.endswith('SingleObserver.fire') and a_.bound is wa for a_ in fwd)
+                goals.append(B(isinstance(h_, VStr) and isinstance(po_, VInt) and okf))
+                if isinstance(h_, VStr) and isinstance(po_, VInt):
+                    goals.append(z3.And(h_.t == z3.String('host'), po_.t == z3.Int('port')))
+            ctx.oblige('post.every_attempt_targets_the_callers_host_and_port_and_forwards_its_local_address_first', p, zand(*goals),
+                       clause='the connection goes to the requested target through the SOCKS port found')
             last = awaited[-1] if awaited else None
             if last == 'ok':
                 ctx.oblige('post.first_success_is_returned', p, B(not isinstance(r, Raise) and r is p.heap.get(('g', 'proto'))))
